@@ -27,18 +27,24 @@ FS = 50.0
 def make_data():
     rng = np.random.default_rng(7)
     t = np.arange(1200) / FS
-    return np.stack([np.sin(2 * np.pi * 3.0 * t) * a + 0.05 * rng.standard_normal(len(t)) for a in (1.0, -0.6, 0.4)], axis=1)
+    return np.stack([np.sin(2 * np.pi * 3.0 * t) * a + 0.3 * np.sin(2 * np.pi * 7.0 * t + 1.0) * b + 0.05 * rng.standard_normal(len(t))
+                     for a, b in ((1.0, 0.5), (-0.6, 1.0), (0.4, -0.7), (0.8, 0.3))], axis=1)
+
+
+SETUP_KIND = "single"          # "single" (SingleSetup) or "preger" (MultiSetup_PreGER with two datasets); set by run()
 
 
 def make_alg(kind, name):
     from pyoma2 import algorithms as A
 
+    ms = SETUP_KIND == "preger"
     loose = dict(conj=True, xi_max=1.0, mpc_lim=0.0, mpd_lim=10.0, cov_max=1e9)
     if kind == "FDD":
-        return A.FDD(name=name, nxseg=128)
+        return (A.FDD_MS if ms else A.FDD)(name=name, nxseg=128)
     if kind == "SSI":
-        return A.SSIcov(name=name, br=6, ordmax=8, hc=loose)
-    return A.pLSCF(name=name, ordmax=5, nxseg=128, method_SD="cor", hc=dict(conj=False, xi_max=1.0, mpc_lim=0.0, mpd_lim=2.0))
+        return (A.SSIcov_MS if ms else A.SSIcov)(name=name, br=6, ordmax=8, hc=loose)
+    return (A.pLSCF_MS if ms else A.pLSCF)(name=name, ordmax=5, nxseg=128, method_SD="cor",
+                                             hc=dict(conj=False, xi_max=1.0, mpc_lim=0.0, mpd_lim=2.0))
 
 
 def mpe_kwargs(alg):
@@ -50,30 +56,47 @@ def mpe_kwargs(alg):
 def def_geo(s, k):
     import pandas as pd
 
-    names = ["a", "b", "c"]
+    single = SETUP_KIND == "single"
+    names = ["a", "b", "c"] if single else ["REF1", "REF2", "c", "d"]       # multi-setup: references are renamed REF1..REFk
+    arg = names if single else [["a", "b", "c"], ["a", "b", "d"]]
     if k == 1:
-        s.def_geo1(sens_names=names, sens_coord=pd.DataFrame([[0, 0, 0], [1, 0, 0], [2, 0, 0]], index=names, columns=["x", "y", "z"]),
-                   sens_dir=np.array([[1, 0, 0]] * 3))
+        s.def_geo1(sens_names=arg, sens_coord=pd.DataFrame([[float(i), 0, 0] for i in range(len(names))], index=names, columns=["x", "y", "z"]),
+                   sens_dir=np.array([[1, 0, 0]] * len(names)))
     else:
         pts = pd.DataFrame([[0, 0, 0.0], [1, 0, 0]], index=["P1", "P2"], columns=["x", "y", "z"])
-        mp_ = pd.DataFrame([["a", "b", 0.0], ["c", 0.0, 0.0]], index=pts.index, columns=["x", "y", "z"], dtype=object)
-        s.def_geo2(sens_names=names, pts_coord=pts, sens_map=mp_)
+        mp_ = pd.DataFrame([[names[0], names[1], 0.0], ["c", 0.0, 0.0 if single else "d"]], index=pts.index, columns=["x", "y", "z"], dtype=object)
+        s.def_geo2(sens_names=arg, pts_coord=pts, sens_map=mp_)
 
 
 class World:
     def __init__(self):
-        from pyoma2.setup import SingleSetup
+        from pyoma2.setup import MultiSetup_PreGER, SingleSetup
 
-        self.setup = SingleSetup(make_data(), fs=FS)
+        x = make_data()
+        if SETUP_KIND == "single":
+            self.setup = SingleSetup(x[:, :3].copy(), fs=FS)
+        else:      # two setups sharing the reference sensors a, b; roving c and d
+            self.setup = MultiSetup_PreGER(fs=FS, ref_ind=[[0, 1], [0, 1]], datasets=[x[:, [0, 1, 2]].copy(), x[:, [0, 1, 3]].copy()])
 
     def project(self):
         s = self.setup
         reg = []
         for name, a in s.algorithms.items():
-            kind = {"FDD": "FDD", "SSIcov": "SSI", "pLSCF": "PLS"}[type(a).__name__]
+            kind = {"FDD": "FDD", "SSIcov": "SSI", "pLSCF": "PLS"}[type(a).__name__.replace("_MS", "")]
             st = "added" if a.result is None else ("mpe" if a.result.Fn is not None else "ran")
             reg.append({"name": name, "kind": kind, "st": st})
         return {"reg": reg, "geo": {"g1": s.geo1 is not None, "g2": s.geo2 is not None}}
+
+
+def snapshot(setup):
+    d = setup.data
+    if isinstance(d, np.ndarray):
+        return [d.copy()]
+    return [np.array(x[k], copy=True) for x in d for k in ("ref", "mov")]
+
+
+def same_snapshot(a, b):
+    return len(a) == len(b) and all(x.shape == y.shape and np.array_equal(x, y) for x, y in zip(a, b))
 
 
 def apply(world, act):
@@ -93,7 +116,7 @@ def apply(world, act):
             s.mpe(act["alg"], **(mpe_kwargs(a) if a is not None else {"sel_freq": [3.0]}))
         elif n == "MpeFromPlot":
             a = s.algorithms.get(act["alg"])
-            kind = type(a).__name__ if a is not None else "FDD"
+            kind = type(a).__name__.replace("_MS", "") if a is not None else "FDD"
             events = [{"name": "KeyPress", "key": "shift"}]
             for j in range(int(act["picks"])):
                 events.append({"name": "Click", "b": 1, "x": 3.0 + 4.0 * j, "y": 16 + 4 * j})
@@ -131,7 +154,7 @@ def apply(world, act):
             (s.plot_mode_geo1 if int(act["k"]) == 1 else s.plot_mode_geo2_mpl)(res, mode_nr=1)
         elif n == "AlgPlot":
             a = s[act["alg"]]
-            (a.plot_CMIF if type(a).__name__ == "FDD" else a.plot_stab)()
+            (a.plot_CMIF if type(a).__name__.startswith("FDD") else a.plot_stab)()
         else:
             raise AssertionError(act)
         return "ok"
@@ -171,7 +194,7 @@ def walk_group(args):
             if only is not None and walk.key(act) not in only:
                 continue
             w = copy.deepcopy(world)
-            before = w.setup.data.copy()
+            before = snapshot(w.setup)
             out = apply(w, act)
             stats["edges"] += 1
             stats["by_action"][act["name"]] = stats["by_action"].get(act["name"], 0) + 1
@@ -181,7 +204,7 @@ def walk_group(args):
                 bad.append(f"outcome {out}, specification {exp_out}")
             if got["reg"] != post["reg"] or got["geo"] != post["geo"]:
                 bad.append(f"state {got}, specification {{'reg': {post['reg']}, 'geo': {post['geo']}}}")
-            if act["name"] != "Rollback" and not (w.setup.data.shape == before.shape and np.array_equal(w.setup.data, before)):
+            if act["name"] != "Rollback" and not same_snapshot(snapshot(w.setup), before):
                 bad.append("the data array changed")
             if bad:
                 dev.append({"path": path + [act], "what": "; ".join(bad)})
@@ -193,6 +216,15 @@ def walk_group(args):
 
 
 def run(tier="quick", seed=0):
+    rc = 0
+    for kind in ("single", "preger"):
+        rc = max(rc, run_kind(kind, tier, seed))
+    return rc
+
+
+def run_kind(kind, tier, seed):
+    global SETUP_KIND
+    SETUP_KIND = kind
     scratch = tempfile.mkdtemp(prefix="verif_session_")
     quick = tier == "quick"
     consts = {"Algs": core.Raw('{[name |-> "a", kind |-> "FDD"], [name |-> "b", kind |-> "SSI"]'
@@ -219,17 +251,17 @@ def run(tier="quick", seed=0):
     for _, s in res:
         for k, v in s["by_action"].items():
             stats["by_action"][k] = stats["by_action"].get(k, 0) + v
-    out = {"module": "Session.tla", "tier": tier, "tlc": {"distinct_states": r.distinct, "states_generated": r.generated},
+    out = {"module": "Session.tla", "setup": kind, "tier": tier, "tlc": {"distinct_states": r.distinct, "states_generated": r.generated},
            "transitions_emitted": len(trans), "edges_replayed": stats["edges"], "complete_behaviours": stats["behaviours"],
            "replayed_by_action": stats["by_action"], "deviations": len(dev), "deviation_samples": dev[:10]}
     os.makedirs("/verif/extras", exist_ok=True)
-    with open("/verif/extras/session.json", "w") as f:
+    with open(f"/verif/extras/session_{kind}.json", "w") as f:
         json.dump(out, f, indent=1, default=str)
     for d in dev[:10]:
-        print("EXTRA-DEVIATION module=Session " + json.dumps(d, default=str)[:500])
+        print(f"EXTRA-DEVIATION module=Session setup={kind} " + json.dumps(d, default=str)[:500])
     import shutil
 
     shutil.rmtree(scratch, ignore_errors=True)
-    print(f"extra session tier={tier} states={r.distinct} transitions={len(trans)} edges_replayed={stats['edges']} "
+    print(f"extra session setup={kind} tier={tier} states={r.distinct} transitions={len(trans)} edges_replayed={stats['edges']} "
           f"behaviours={stats['behaviours']} deviations={len(dev)}")
     return 0
